@@ -313,7 +313,10 @@ def get_context_from_transcript(transcript_path: str) -> int | None:
             size = f.tell()
             chunk_size = min(size, 64 * 1024)
             f.seek(max(0, size - chunk_size))
-            lines = f.read().decode("utf-8", errors="ignore").strip().split("\n")
+            # never more than the tail just measured (a device such as /dev/zero has no end)
+            lines = (
+                f.read(chunk_size).decode("utf-8", errors="ignore").strip().split("\n")
+            )
         for line in reversed(lines):
             try:
                 entry = json.loads(line)
